@@ -233,12 +233,23 @@ def capacity_ok(case, decisions, resolution=1):
     return True, None
 
 
-def evaluate(case, decisions, malleable_end_shift=False):
-    """Reference semantics: returns (valid, utility, why). `decisions`: leaf index -> None | allocation."""
+def evaluate(case, decisions, malleable_end_shift=False, live=None):
+    """Reference semantics: returns (valid, utility, why). `decisions`: leaf index -> None | allocation.
+    `live`: when the decisions were read back for these nodes only (those that take part in the lowered expression), the
+    structural clauses are judged for these nodes only: a LessThan below a no-utility parent is not part of the expression,
+    and the leaves that only it owns were not read back."""
     nodes = case["nodes"]
     now = case["now"]
     memo = {}
     invalid = []
+    cur = [None]
+
+    class _Flags(list):
+        def append(self, msg):
+            if live is None or cur[0] is None or cur[0] in live:
+                list.append(self, msg)
+
+    invalid = _Flags()
 
     def ev(i):
         if i in memo:
@@ -287,6 +298,7 @@ def evaluate(case, decisions, malleable_end_shift=False):
             else:
                 sats = [c for c in ok if c["sat"]]
                 if len(sats) > 1:
+                    cur[0] = i
                     invalid.append(f"MAX {n['name']} has {len(sats)} satisfied children")
                 sat = len(sats) == 1
                 r = {"nou": False, "sat": sat, "util": sum(c["util"] for c in ok), "start": sats[0]["start"] if sat else None,
@@ -299,6 +311,7 @@ def evaluate(case, decisions, malleable_end_shift=False):
             else:
                 enf = [c for c in cs if c["var_ind"]]
                 if enf and len({c["sat"] for c in enf}) > 1:
+                    cur[0] = i
                     invalid.append(f"MIN {n['name']} has a mix of satisfied and unsatisfied children")
                 sat = all(c["sat"] for c in enf) if enf else True
                 starts = [c["start"] for c in cs if c.get("start") is not None and c["sat"]]
@@ -323,11 +336,13 @@ def evaluate(case, decisions, malleable_end_shift=False):
             else:
                 enf = [c for c in (a, b) if c["var_ind"]]
                 if enf and len({c["sat"] for c in enf}) > 1:
+                    cur[0] = i
                     invalid.append(f"LESSTHAN {n['name']} has exactly one satisfied child")
                 sat = all(c["sat"] for c in enf) if enf else True
                 # ordering is part of the meaning of a *satisfied* LessThan only: when it is not satisfied it contributes
                 # nothing and constrains nothing
                 if sat and a.get("end") is not None and b.get("start") is not None and a["sat"] and b["sat"] and a["end"] > b["start"]:
+                    cur[0] = i
                     invalid.append(f"LESSTHAN {n['name']}: first child ends {a['end']} after second starts {b['start']}")
                 a_start_var = a.get("start_var", a.get("var_time", True))
                 b_end_var = b.get("end_var", b.get("var_time", True))
@@ -345,6 +360,7 @@ def evaluate(case, decisions, malleable_end_shift=False):
     for i in range(len(nodes)):
         ev(i)
     ok, why = capacity_ok(case, decisions)
+    cur[0] = None
     if not ok:
         invalid.append(f"capacity exceeded {why}")
     return (not invalid), root["util"], invalid
